@@ -64,7 +64,7 @@ CONSTANTS Agent,      \* set of agent names
           Dev, Emit
 
 DevNames == {"DevForwardKeepsReceivedMetric", "DevReplayUsesOwnSequence", "DevNoHopCheck", "DevCount8Wrap",
-             "DevNoSeenMark", "DevForwardLooped", "DevNoPathPrepend", "DevPathCountWrap"}
+             "DevNoSeenMark", "DevForwardLooped", "DevNoPathPrepend", "DevPathCountWrap", "DevSeenBlocksResync"}
 
 ASSUME /\ Dev \subseteq DevNames /\ Announcers \subseteq Agent
        /\ \A u \in InitUps : u \subseteq Links
@@ -85,11 +85,12 @@ VARIABLES up,     \* connected links
           sent,   \* ghost: <<o,seq>> -> frames sent by Announce and forwarding (replays not counted)
           viol,   \* ghost: [pr, fw, c06] flags
           clean,  \* ghost: agent announced after the last topology change / ageing
+          rejoin, \* ghost: the link whose connect was the last topology / ageing event ({} if none)
           bud,    \* budgets used
           last
 
-vars == <<up, pend, gone, ctr, seen, tbl, net, cfg, nann, proc, fwd, sent, viol, clean, bud, last>>
-view == <<up, pend, gone, ctr, seen, tbl, net, cfg, nann, proc, fwd, sent, viol, clean, bud>>
+vars == <<up, pend, gone, ctr, seen, tbl, net, cfg, nann, proc, fwd, sent, viol, clean, rejoin, bud, last>>
+view == <<up, pend, gone, ctr, seen, tbl, net, cfg, nann, proc, fwd, sent, viol, clean, rejoin, bud>>
 
 (* ---- helpers ------------------------------------------------------------*)
 SeqToSet(s) == {s[i] : i \in 1..Len(s)}
@@ -132,6 +133,7 @@ Init ==
   /\ proc = {} /\ fwd = {} /\ sent = EmptyBag
   /\ viol = [pr |-> FALSE, fw |-> FALSE, c06 |-> FALSE]
   /\ clean = [a \in Agent |-> FALSE]
+  /\ rejoin = {}
   /\ bud = [ann |-> [a \in Agent |-> 0], conn |-> 0, disc |-> 0, exp |-> 0, dup |-> 0, age |-> 0]
   /\ last = [act |-> "Init"]
 
@@ -162,7 +164,7 @@ AnnounceWith(o, chunks) ==
   /\ nann' = [nann EXCEPT ![o] = @ + 1]
   /\ clean' = [clean EXCEPT ![o] = TRUE]
   /\ bud' = [bud EXCEPT !.ann[o] = @ + 1]
-  /\ UNCHANGED <<up, pend, gone, seen, tbl, cfg, proc, fwd, viol>>
+  /\ UNCHANGED <<rejoin, up, pend, gone, seen, tbl, cfg, proc, fwd, viol>>
 
 \* the model checker uses the split the code makes for CIDR, domain, forward, presence in this order
 CanonChunks(l) == IF l = <<>> THEN <<>> ELSE IF "DevCount8Wrap" \in Dev THEN <<l>> ELSE Chunks(l)
@@ -185,13 +187,13 @@ DeliverUndecodable(m, keep) ==
   /\ net' = Rest(m, keep)
   /\ viol' = [viol EXCEPT !.c06 = TRUE]
   /\ last' = Lbl(m, keep, "undecodable")
-  /\ UNCHANGED <<cfg, up, pend, gone, ctr, seen, tbl, nann, proc, fwd, sent, clean>>
+  /\ UNCHANGED <<rejoin, cfg, up, pend, gone, ctr, seen, tbl, nann, proc, fwd, sent, clean>>
 
 DeliverSeen(m, keep) ==
   /\ Take(m, keep) /\ Decodable(m) /\ <<m.o, m.seq>> \in seen[m.dst]
   /\ net' = Rest(m, keep)
   /\ last' = Lbl(m, keep, "seen")
-  /\ UNCHANGED <<cfg, up, pend, gone, ctr, seen, tbl, nann, proc, fwd, sent, viol, clean>>
+  /\ UNCHANGED <<rejoin, cfg, up, pend, gone, ctr, seen, tbl, nann, proc, fwd, sent, viol, clean>>
 
 Mark(m) ==
   /\ seen' = IF "DevNoSeenMark" \in Dev THEN seen ELSE [seen EXCEPT ![m.dst] = @ \cup {<<m.o, m.seq>>}]
@@ -208,7 +210,7 @@ DeliverDropped(m, keep) ==
   /\ Mark(m)
   /\ viol' = [viol EXCEPT !.pr = @ \/ <<m.dst, m.o, m.seq>> \in proc]
   /\ net' = Rest(m, keep)
-  /\ UNCHANGED <<cfg, up, pend, gone, ctr, tbl, nann, fwd, sent, clean>>
+  /\ UNCHANGED <<rejoin, cfg, up, pend, gone, ctr, tbl, nann, fwd, sent, clean>>
 
 \* the count field of an agent list: a list that fits is written as it is; a longer one would be written with the
 \* count wrapped, and the receiver reads that many agents and ignores the rest
@@ -251,7 +253,7 @@ DeliverNew(m, keep) ==
         /\ sent' = Bump(sent, <<m.o, m.seq>>, Cardinality(F))
         /\ viol' = [viol EXCEPT !.pr = @ \/ <<m.dst, m.o, m.seq>> \in proc, !.fw = @ \/ fk \cap fwd # {}]
   /\ last' = Lbl(m, keep, "new")
-  /\ UNCHANGED <<cfg, up, pend, gone, ctr, nann, clean>>
+  /\ UNCHANGED <<rejoin, cfg, up, pend, gone, ctr, nann, clean>>
 
 Deliver(m, keep) == DeliverUndecodable(m, keep) \/ DeliverSeen(m, keep) \/ DeliverDropped(m, keep) \/ DeliverNew(m, keep)
 
@@ -263,7 +265,7 @@ ExpireSeen(n, k) ==
   /\ fwd' = {x \in fwd : ~(x[1] = n /\ x[3] = k[1] /\ x[4] = k[2])}
   /\ bud' = [bud EXCEPT !.exp = @ + 1]
   /\ last' = [act |-> "ExpireSeen", n |-> n, o |-> k[1], seq |-> k[2]]
-  /\ UNCHANGED <<cfg, up, pend, gone, ctr, tbl, net, nann, sent, viol, clean>>
+  /\ UNCHANGED <<rejoin, cfg, up, pend, gone, ctr, tbl, net, nann, sent, viol, clean>>
 
 (* ---- topology -------------------------------------------------------------*)
 Connect(l) ==
@@ -272,6 +274,7 @@ Connect(l) ==
   /\ up' = up \cup {l}
   /\ pend' = pend \cup ({<<a, b>> : a \in l, b \in l} \ {<<a, a>> : a \in l})
   /\ clean' = [a \in Agent |-> FALSE]
+  /\ rejoin' = l
   /\ bud' = [bud EXCEPT !.conn = @ + 1]
   /\ last' = [act |-> "Connect", l |-> l]
   /\ UNCHANGED <<cfg, gone, ctr, seen, tbl, net, nann, proc, fwd, sent, viol>>
@@ -312,7 +315,7 @@ ReplayWith(n, p, own) ==
           /\ last' = [act |-> "Replay", n |-> n, p |-> p]
   /\ ctr' = [ctr EXCEPT ![n] = @ + Len(own)]
   /\ pend' = pend \ {<<n, p>>}
-  /\ UNCHANGED <<cfg, up, gone, seen, tbl, nann, proc, fwd, sent, viol, clean, bud>>
+  /\ UNCHANGED <<rejoin, cfg, up, gone, seen, tbl, nann, proc, fwd, sent, viol, clean, bud>>
 Replay(n, p) == ReplayWith(n, p, CanonChunks(LocalList(n)))
 
 (* deviation: one announcement per ORIGIN (all sequences merged) under the *)
@@ -336,7 +339,7 @@ DevReplay(n, p) ==
         /\ ctr' = [ctr EXCEPT ![n] = @ + Cardinality(G)]
   /\ last' = [act |-> "Replay", n |-> n, p |-> p, dev |-> "DevReplayUsesOwnSequence"]
   /\ pend' = pend \ {<<n, p>>}
-  /\ UNCHANGED <<cfg, up, gone, seen, tbl, nann, proc, fwd, sent, viol, clean, bud>>
+  /\ UNCHANGED <<rejoin, cfg, up, gone, seen, tbl, nann, proc, fwd, sent, viol, clean, bud>>
 
 \* the connection is lost: frames in flight on it are lost, both ends still hold the routes
 Disconnect(l) ==
@@ -346,17 +349,24 @@ Disconnect(l) ==
   /\ pend' = {x \in pend : {x[1], x[2]} # l}
   /\ gone' = gone \cup ({<<a, b>> : a \in l, b \in l} \ {<<a, a>> : a \in l})
   /\ clean' = [a \in Agent |-> FALSE]
+  /\ rejoin' = {}
   /\ bud' = [bud EXCEPT !.disc = @ + 1]
   /\ last' = [act |-> "Disconnect", l |-> l]
   /\ UNCHANGED <<cfg, ctr, seen, tbl, nann, proc, fwd, sent, viol>>
 
-\* handlePeerDisconnect at n: routes whose next hop was p are removed from all four tables
+\* handlePeerDisconnect at n: routes whose next hop was p are removed from all four tables, and the announcements
+\* they came from are forgotten in the seen cache - otherwise the table replay of a peer that (re)connects within the
+\* seen-cache lifetime, which carries the origin's sequence numbers, would be dropped as already seen
 PeerGone(n, p) ==
   /\ <<n, p>> \in gone
   /\ gone' = gone \ {<<n, p>>}
   /\ tbl' = [tbl EXCEPT ![n] = {e \in @ : e.nh # p}]
+  /\ LET K == IF "DevSeenBlocksResync" \in Dev THEN {} ELSE {<<e.o, e.seq>> : e \in {x \in tbl[n] : x.nh = p}}
+     IN /\ seen' = [seen EXCEPT ![n] = @ \ K]
+        /\ proc' = {x \in proc : ~(x[1] = n /\ <<x[2], x[3]>> \in K)}
+        /\ fwd' = {x \in fwd : ~(x[1] = n /\ <<x[3], x[4]>> \in K)}
   /\ last' = [act |-> "PeerGone", n |-> n, p |-> p]
-  /\ UNCHANGED <<cfg, up, pend, ctr, seen, net, nann, proc, fwd, sent, viol, clean, bud>>
+  /\ UNCHANGED <<rejoin, cfg, up, pend, ctr, net, nann, sent, viol, clean, bud>>
 
 (* ---- route ageing ----------------------------------------------------------*)
 \* time passes: everything stored so far is older than the route TTL
@@ -364,6 +374,7 @@ AgeAll ==
   /\ bud.age < MaxAge /\ \E a \in Agent : \E e \in tbl[a] : ~e.old
   /\ tbl' = [a \in Agent |-> {[e EXCEPT !.old = TRUE] : e \in tbl[a]}]
   /\ clean' = [a \in Agent |-> FALSE]
+  /\ rejoin' = {}
   /\ bud' = [bud EXCEPT !.age = @ + 1]
   /\ last' = [act |-> "AgeAll"]
   /\ UNCHANGED <<cfg, up, pend, gone, ctr, seen, net, nann, proc, fwd, sent, viol>>
@@ -372,6 +383,7 @@ AgeAll ==
 CleanupStale(n) ==
   /\ \E e \in tbl[n] : e.old
   /\ tbl' = [tbl EXCEPT ![n] = {e \in @ : ~e.old}]
+  /\ rejoin' = {}
   /\ last' = [act |-> "CleanupStale", n |-> n]
   /\ UNCHANGED <<cfg, up, pend, gone, ctr, seen, net, nann, proc, fwd, sent, viol, clean, bud>>
 
@@ -427,6 +439,14 @@ PathsValid == Stable /\ gone = {} => \A a \in Agent : \A e \in tbl[a] : ChainOK(
 Learned(a, o) == /\ \E e \in tbl[a] : e.o = o /\ e.r = "p"
                  /\ \A r \in Locals(o) : \E e \in tbl[a] : e.o = o /\ e.r = r
 Converged == Quiescent /\ Reachable => \A o \in Agent : clean[o] => \A a \in ReachFrom({o}) \ {o} : Learned(a, o)
+
+\* C12/C14 -- a peer that (re)connects gets, by the table replay, every route the other end holds and could give it
+\* (evaluated at quiescence while that connect is the last topology / ageing event)
+Givable(n, p, o) == \A e \in tbl[n] : e.o = o => /\ e.nh # p /\ p \notin SeqToSet(e.path)
+                                                   /\ Len(e.path) + 1 <= cfg.hops[p] /\ Fits(<<n>> \o e.path)
+Resynced == Quiescent /\ rejoin # {} =>
+              \A n \in rejoin : \A p \in rejoin \ {n} : \A e \in tbl[n] :
+                 e.o # p /\ Givable(n, p, e.o) => \E f \in tbl[p] : f.o = e.o /\ f.r = e.r
 
 \* C13 -- metric = number of hops along the recorded path
 MetricIsHops == \A a \in Agent : \A e \in tbl[a] : e.m = Len(e.path)
